@@ -192,6 +192,82 @@ def check_wrapper(run):
                        + "; ".join(descr[c0 + i][:300] for i in bad[:3]))
 
 
+def f_draft(delta, E, contact_point=0, baseline=0):
+    """first draft of a user model: forgot the baseline"""
+    root = contact_point - delta
+    out = np.zeros_like(delta)
+    out[root > 0] = E * root[root > 0] ** 1.5
+    return out
+
+
+def f_final(delta, E, contact_point=0, baseline=0):
+    root = contact_point - delta
+    out = np.zeros_like(delta)
+    out[root > 0] = E * root[root > 0] ** 1.5
+    return out + baseline
+
+
+def reload_cases(run):
+    """a user model is registered, then another module with the SAME key
+    (the edited model) is registered without deregistering first, then the
+    first one again: the registry's model / residual must always evaluate the
+    function of the module registered last"""
+    from nanite import model
+    from nanite.model.residuals import compute_contact_point_weights as cw
+    key = "nv_reload"
+    seq = [("draft", f_draft), ("final", f_final), ("index", f_index_weighted),
+           ("draft", f_draft), ("final", f_final)]
+    last = None
+    try:
+        for step, (tag, func) in enumerate(seq):
+            last = model.register_model(make_module(key, func))
+            md = model.models_available[key]
+            cfg = {"reload-step": step, "function": tag}
+            k2 = f"reload:{step}:{tag}"
+            run.case(cfg, kind="reload")
+            for orient in ("desc", "asc"):
+                x = np.linspace(1e-6, -1e-6, 9)
+                if orient == "asc":
+                    x = x[::-1].copy()
+                y = np.linspace(-1e-9, 2e-9, 9)
+                p = md.get_parameter_defaults()
+                p["E"].set(value=2.5)
+                p["contact_point"].set(value=1e-7)
+                p["baseline"].set(value=3e-10)
+                try:
+                    out = md.model(p, x)
+                    res = md.residual(p, x, y, 5e-7)
+                except BaseException as e:
+                    run.failing(SITE, k2 + "|raised", f"{cfg}: raised "
+                                f"{type(e).__name__}: {e}",
+                                payload={"kind": "rerun"})
+                    continue
+                asc = x[0] < x[-1]
+                inner = func((x[::-1] if asc else x).copy(), **p.valuesdict())
+                want = inner[::-1] if asc else inner
+                if md.module.model_func is not func:
+                    run.failing(SITE, k2 + "|registry", f"{cfg}: the "
+                                "registry does not hold the module "
+                                "registered last", payload={"kind": "rerun"},
+                                theorem="C13_wrapper_calls_on_seen")
+                elif np.asarray(out).tobytes() != np.asarray(want).tobytes():
+                    run.failing(SITE, k2 + "|model", f"{cfg} ({orient}): "
+                                "model() of the registered model is not its "
+                                "own model function (baseline shift "
+                                f"{float(np.max(np.abs(out - want))):.3g})",
+                                payload={"kind": "rerun"},
+                                theorem="C13_wrapper_calls_on_seen")
+                wres = (y - want) * cw(p["contact_point"].value, x, 5e-7)
+                if np.asarray(res).tobytes() != wres.tobytes():
+                    run.failing(SITE, k2 + "|residual", f"{cfg} ({orient}): "
+                                "default residual is not (data - model "
+                                "function) * weights", payload={"kind": "rerun"},
+                                theorem="C13_default_residual")
+    finally:
+        if last is not None and key in model.models_available:
+            model.deregister_model(model.models_available[key])
+
+
 def check_laws(run):
     """the structural laws on every registered model, numerically"""
     from nanite import model
@@ -308,6 +384,7 @@ def check(run):
         "model, and continuity for them, are explored numerically only",
     ]
     check_wrapper(run)
+    reload_cases(run)
     check_laws(run)
     run.rule = ("harness-registered order-sensitive / asserting / ancillary /"
                 " expression models on abscissae of both orientations, sizes "
